@@ -296,6 +296,7 @@ func replayField(rp *reporter, ln *Line, rng *rand.Rand) {
 		}
 		a, d := &reg[st.A], &reg[st.D]
 		before := a.VerifLimbs()
+		held := [4][]byte{nil, normBytes(&reg[1]), normBytes(&reg[2]), normBytes(&reg[3])}
 		observed, isObserver := false, false
 		var got32 []byte
 		switch st.Op {
@@ -331,7 +332,15 @@ func replayField(rp *reporter, ln *Line, rng *rand.Rand) {
 			sum.infra("unknown field op %q", st.Op)
 			return
 		}
-		sum.add(0, 1, 0)
+		sum.add(0, 1, 1)
+		// operands are values: no register other than the destination may change (an observer has no destination)
+		for r := 1; r <= 3; r++ {
+			if (isObserver || r != st.D) && !bytes.Equal(normBytes(&reg[r]), held[r]) {
+				rp.fail(i, "C08:field:"+st.Op+":operand-changed", fmt.Sprintf("Field.%s changed the value of register %d, which is not its destination", st.Op, r),
+					map[string]string{"r1": ln.Ini.R1, "r2": ln.Ini.R2, "expr": st.E, "step": fmt.Sprintf("%d:%s d=%d a=%d b=%d", i, st.Op, st.D, st.A, st.B), "before": hx(held[r]), "after": hx(normBytes(&reg[r]))})
+				return
+			}
+		}
 		if !isObserver {
 			exprOf[st.D] = st.E
 		}
